@@ -838,6 +838,18 @@ class Subject:
                              note="an inspection function edited a module/class-level table shared by all simulation instances")
 
     # ---- comparison point
+    def final_compare(self):
+        """End of the episode: if a comparison with the never-inspected shadow had to be postponed, look at the
+        shadow itself now (nothing follows that the look could influence)."""
+        if self.dead or self.faulted or not getattr(self, "s16_postponed", False) or "C16" not in self.props:
+            return
+        a = snapshot(self.sut, self.isa, self.mode)
+        b = snapshot(self.s16, self.isa, self.mode)
+        if a != b:
+            ks = diff_keys(a, b)
+            self.violate("C16", "inspected-run-differs-from-uninspected-run", fields=ks, first=first_diff(b, a, ks[0]),
+                         note="expected = never inspected (looked at only at the end of the episode), got = inspected")
+
     def compare(self, deep_s16=True):
         self.events += 1
         if self.dead or self.faulted:
@@ -856,8 +868,13 @@ class Subject:
         if "C16" in self.props and deep_s16:
             try:
                 b = snapshot(copy.deepcopy(self.s16), isa, mode)
-            except Exception as e:  # noqa: BLE001
-                b = {"deepcopy-raised": type(e).__name__}
+            except Exception:  # noqa: BLE001
+                # the shadow cannot be copied (nothing promises that a simulation is deep-copyable, e.g. once it
+                # keeps an exception object): it must not be looked at now - that would make it an inspected run -
+                # so the comparison is postponed to the end of the episode (final_compare)
+                self.res.relaxations["C16: shadow not deep-copyable at this event, compared at the end of the episode instead"] += 1
+                self.s16_postponed = True
+                b = a
             if a != b:
                 ks = diff_keys(a, b)
                 self.violate("C16", "inspected-run-differs-from-uninspected-run", fields=ks,
